@@ -460,7 +460,25 @@ impl Host<'_> {
                 _ => piece(self.c0(), false),
             },
             Profile::Unicode => match r {
-                0..=19 => piece(self.printable(), false),
+                0..=3 => {
+                    // something a link scanner will pick up, with characters beyond ASCII in it
+                    let mut v = b"see http://example.com/caf".to_vec();
+                    v.extend([0xe9, b'/', 0xfc, 0xb0, b'?', b'q', b'=', 0xa0 + self.rng.below(0x5f) as u8]);
+                    v.extend(b" and www.icy-engine.org/\xdf\r\n");
+                    piece(v, false)
+                }
+                4 if self.rng.chance(1, 12) => {
+                    // a text macro as long as the macro space, with two-byte characters where the space ends
+                    let n = 32_750 + self.rng.usize(24);
+                    let mut v = format!("\x1bP{};0;0!z", self.rng.below(4)).into_bytes();
+                    v.extend(std::iter::repeat(b'a').take(n));
+                    for _ in 0..12 {
+                        v.push(0xa1 + self.rng.below(0x5e) as u8);
+                    }
+                    v.extend(b"\x1b\\");
+                    piece(v, true)
+                }
+                4..=19 => piece(self.printable(), false),
                 20..=44 => piece(format!("\x1b[{};{};{};{};{}$x", self.fill_char(), self.param(true), self.param(false), self.param(true), self.param(false)).into_bytes(), true),
                 45..=54 => self.macro_def(0),
                 55..=59 => piece(format!("\x1b[{}*z", self.rng.below(4)).into_bytes(), true),
@@ -793,6 +811,7 @@ pub fn gen_term(prop: &'static str, rng: &mut Rng, run: u64, thorough: bool) -> 
     t.cfg.w = w;
     t.cfg.h = h;
     t.cfg.bs_is_ctrl = rng.chance(1, 4);
+    t.cfg.prefilled = rng.chance(1, 4);
     t.cfg.clock_ms = 1_700_000_000_000;
     t.cfg.monitor_every = *rng.pick(&[1u64, 8, 64]);
     let max_bytes = if thorough { 16 * 1024 } else { 4 * 1024 };
@@ -899,9 +918,11 @@ pub fn gen_c03(rng: &mut Rng, _run: u64, _thorough: bool) -> Trace {
     };
     let (w, h) = pick_size(rng, emu);
     t.cfg.emu = emu.into();
-    t.cfg.music = (*rng.pick(&MUSIC)).into();
+    // (with ANSI music on, CSI M / N / | start a music string instead of deleting lines)
+    t.cfg.music = (if rng.chance(1, 2) { "Off" } else { *rng.pick(&MUSIC) }).into();
     t.cfg.w = w;
     t.cfg.h = h;
+    t.cfg.prefilled = rng.chance(1, 3);
     t.cfg.clock_ms = 1_700_000_000_000;
     let mut bytes: Vec<u8> = Vec::new();
     // set-up: a little state for the target to meet
@@ -914,6 +935,17 @@ pub fn gen_c03(rng: &mut Rng, _run: u64, _thorough: bool) -> Trace {
             4 => bytes.extend(b"\x1b[4h"),
             _ => bytes.extend(format!("\x1b[{};{}H", 1 + rng.below(h as u64), 1 + rng.below(w as u64)).into_bytes()),
         }
+    }
+    if emu == "ansi" && rng.chance(1, 2) {
+        // a screen that has something on every row (rows are stored lazily: many functions do nothing on rows that
+        // do not exist yet), a scroll region that covers all or most of it, and the cursor inside
+        for _ in 0..h {
+            bytes.extend(b"x\r\n");
+        }
+        if rng.chance(2, 3) {
+            bytes.extend(format!("\x1b[{};{}r", 1 + rng.below(2), (h as u64).saturating_sub(rng.below(2)).max(2)).into_bytes());
+        }
+        bytes.extend(format!("\x1b[{};1H", 1 + rng.below((h as u64).min(5))).into_bytes());
     }
     // a resize request with extreme numbers first: the engine clamps it to 132x60, and every later clamp
     // ("at most one screenful") is only as good as that one
@@ -997,8 +1029,8 @@ pub fn gen_c03(rng: &mut Rng, _run: u64, _thorough: bool) -> Trace {
             }
             0..=5 => {
                 let f = (0x40 + rng.below(0x3f) as u8) as char;
-                let pr = *rng.pick(&["", "", "", "?", "=", "!", "<"]);
-                let im = *rng.pick(&["", "", "", " ", "$", "*"]);
+                let pr = *rng.pick(&["", "", "", "", "", "", "?", "=", "!", "<"]);
+                let im = *rng.pick(&["", "", "", "", "", "", " ", "$", "*"]);
                 let n = rng.usize(7);
                 let mut s = format!("\x1b[{pr}");
                 for i in 0..n {
